@@ -69,7 +69,7 @@ def run(c, facts, tier):
             fty_n = re.sub(r"^Comparison<(.*)>$", r"\1", fty or "")
             fty_n = al.get(fty_n, fty_n)
             c.ob("C07.convert", a.site, "%s stores a %s" % (a.lit, m.group(1)), fty_n == m.group(1), "argument parsed as %s, field type %s" % (m.group(1), fty), nontrivial=False)
-    c.floor("numeric keyword arguments", nnum, 8)
+    c.floor("numeric keyword arguments", nnum, 7)
     # count of sizes / times: the count parser is the u64 parser and the payload is SizeType = u64
     for ty in ("Size", "TimeSpec"):
         e = facts.enum(ty)
